@@ -10,7 +10,8 @@ package main
 // a Handshake run against the in-package server over TCP loopback; injected tickets / PSKs come
 // from earlier real connections against the same server ticket keys.
 //
-//   c20 kind=psk cfg=1 kc=s12 smax=13 ops=C,Pi,W,H => r=ok,ok,ok,ok d=... hs=... ut=.. wt=..
+//   c20 kind=psk cfg=1 kc=s12 smax=13 ops=C,Pi,W,H => r=ok,ok,ok,ok d=<dump>,<dump>,<dump>,h
+//       hs=<client>/<server>/<vers>/<cDidResume>/<sDidResume> wt=<tok>/<#hellos> wp=<tok> wage=.. uage=.. inj=<hex> wire=<hex>
 
 import (
 	"bytes"
@@ -193,13 +194,14 @@ func c20ClassifyErr(err error) string {
 
 // ---- ClientHello inspection ----
 
-// c20HelloExts returns the session_ticket body and the pre_shared_key identities of a marshalled
-// ClientHello handshake message (with its 4-byte header). ticket == nil means "extension absent".
+// c20PskID is one identity of a pre_shared_key extension.
 type c20PskID struct {
 	label []byte
 	age   uint32
 }
 
+// c20ParseHello returns the session_ticket body and the pre_shared_key identities of a marshalled
+// ClientHello handshake message (with its 4-byte header).
 func c20ParseHello(msg []byte) (ticket []byte, hasTicket bool, ids []c20PskID, hasPsk bool, ok bool) {
 	b := msg
 	take := func(n int) []byte {
